@@ -180,6 +180,44 @@ def replay_findings(ctx, findings):
             ctx.known_reproduced.append((f, hit[0][:160]))
 
 
+def regenerated_schema_history(_arg):
+    """worker (own process): the status must describe the schema file AS IT IS NOW.  validate under a search-path schema, regenerate
+    the schema file with one more required field, validate the same document again, then break the file, then restore it.
+    Returns [(step, expected, got)] for every step whose status differs from the expected one."""
+    import asyncio
+    from octave_mcp.mcp.validate import ValidateTool
+    from octave_mcp.mcp.write import WriteTool
+    sb = SB.worker_sandbox()
+    sb.enter()
+    f = sb.cwd / "specs" / "schemas" / "gen_fields.oct.md"
+    v1 = SB.GEN_SCHEMAS["GEN_FIELDS"]
+    v2 = v1.replace("FIELDS:\n", 'FIELDS:\n  OWNER::["someone"∧REQ]\n', 1).replace('"2.1"', '"2.2"')
+    broken = "===GEN_FIELDS===\nFIELDS:\n  NAME::[\"x\"∧REQ\n===END===\n"
+    doc = H.CONTENTS["fields_ok"]
+    tool = ValidateTool()
+    bad = []
+
+    def status(tag, expected):
+        r = asyncio.run(tool.execute(content=doc, schema="GEN_FIELDS"))
+        if r.get("validation_status") != expected:
+            bad.append((tag, expected, r.get("validation_status")))
+        w = asyncio.run(WriteTool().execute(target_path=str(sb.fresh_target()), content=doc, schema="GEN_FIELDS", corrections_only=True))
+        if w.get("validation_status") != expected:
+            bad.append((tag + " (octave_write)", expected, w.get("validation_status")))
+    try:
+        status("schema as generated", "VALIDATED")
+        f.write_text(v2, encoding="utf-8")
+        status("schema file regenerated with one more required field", "INVALID")
+        f.write_text(broken, encoding="utf-8")
+        status("schema file no longer loads", "UNVALIDATED")
+        f.write_text(v1, encoding="utf-8")
+        status("schema file restored", "VALIDATED")
+    finally:
+        f.write_text(v1, encoding="utf-8")
+        sb.leave()
+    return bad
+
+
 def run(ctx: vlib.Ctx):
     ctx.rule = ("a case = one call of a tool / CLI command: (content class, schema-argument class, profile, flags, input/target mode); "
                 "quick: seeded pairwise-covering arrays over the broad space (every content x every schema argument) and over the focused space "
@@ -220,6 +258,12 @@ def run(ctx: vlib.Ctx):
             if not ctx.replay:
                 gate_check(ctx, drv)
                 injection_check(ctx, drv)
+                # the status is about the schema file as it is now (one long-lived process, the file regenerated between calls)
+                for (step, exp, got) in vlib.pmap(regenerated_schema_history, [0])[0]:
+                    ctx.failures.append({"case": {"history": "octave_validate / octave_write(content=fields_ok, schema=GEN_FIELDS) in ONE process while specs/schemas/gen_fields.oct.md "
+                                                             "is (1) as generated, (2) regenerated with a further required field, (3) made unloadable, (4) restored", "step": step},
+                                         "why": f"after step '{step}' the validation status is {got}; the schema file as it is now gives {exp}", "why_class": "stale-schema"})
+                ctx.count("history:regenerated_schema")
         finally:
             if SB._SANDBOX is not None:
                 SB._SANDBOX.leave()
